@@ -5,7 +5,11 @@ open Lean Proto JediModel.DiskCache
 
 /-! Driver for C09.  One request = one history over one scratch project:
 `{"op":"history","steps":[{"t":"write","p":"a/m.py","b":3,"m":100},{"t":"delete","p":..},
-  {"t":"rename","s":..,"d":..},{"t":"load","p":..},{"t":"newProcess"},{"t":"tick","dt":n}]}`
+  {"t":"rename","s":..,"d":..},{"t":"load","p":..},{"t":"newProcess"},{"t":"tick","dt":n},
+  {"t":"stub","dir":"pkg","direct":["pkg/spk/__init__.pyi"],"useListing":true,
+   "pkgStub":"pkg/spk/__init__.pyi","modStub":"pkg/spk.pyi","pyAbsent":false}]}`
+(`stub` = one `_try_to_load_stub` of a sub-module: answers which stub file is served, from which layer,
+and which version).
 Bytes are numbers (equal number ⇔ equal content), `parse = id`: the value a load returns names the
 version of the file the served tree was parsed from; `layer` says which branch served it. -/
 
@@ -38,6 +42,14 @@ def stepJson (st : St) (j : Json) : St × Json :=
     (st', jobj [("val", jopt jnat v), ("layer", jstr layer),
                 ("pickle", jbool (st'.pickles p).isSome),
                 ("ctime", jopt jnat ((st'.mem p).map (·.changeTime)))])
+  | "stub" =>
+    let q : StubQuery := { dir := str j "dir", direct := strs j "direct", useListing := bool j "useListing",
+                           pkgStub := str j "pkgStub", modStub := str j "modStub", pyAbsent := bool j "pyAbsent" }
+    let (r, st') := tryLoadStub cfg P st q
+    (st', jobj [("path", jopt jstr (r.map (·.1))), ("val", jopt jnat (r.map (·.2))),
+                ("layer", jopt jstr (r.map fun x => layerOf st x.1)),
+                ("memo", jbool (st.listings q.dir).isSome),
+                ("fresh", jopt jstr ((stubNow P st.fs q).map (·.1)))])
   | t => (st, jobj [("error", jstr ("unknown step " ++ t))])
 
 def handle (j : Json) : Json :=
